@@ -102,7 +102,8 @@ def write_readme(results) -> None:
 
 def run_refactor(name_dir) -> dict:
     """A behaviour-preserving refactoring: no property may fire, no analysis error."""
-    name, base = name_dir
+    name, base = name_dir[0], name_dir[1]
+    only_props = name_dir[2] if len(name_dir) > 2 else None
     d = os.path.join(base, name)
     tmp = tempfile.mkdtemp(prefix="sa-refac-", dir=os.environ.get("TMPDIR", "/tmp"))
     try:
@@ -118,7 +119,7 @@ def run_refactor(name_dir) -> dict:
         known = load_known()
         fired: Dict[str, List[str]] = {}
         errors: List[str] = []
-        for prop in sorted(PROPS):
+        for prop in (only_props or sorted(PROPS)):
             spec = PROPS[prop]
             for rid in spec["rules"]:
                 try:
